@@ -2,7 +2,7 @@
 """keep_seed.py <Cnn> <variant> : copy a validated sub-agent seed from /tmp/seedout into /verif/seeded/<Cnn><variant>/ with meta.json"""
 import json, os, shutil, sys, re
 prop, v = sys.argv[1], sys.argv[2]
-src = f'/tmp/seedout/{prop}/{v}'
+src = os.environ.get('SEEDROOT', '/tmp/seedout') + f'/{prop}/{v}'
 dst = f'/verif/seeded/{prop}{v}'
 val = None
 lg = f'/tmp/seedval/{prop}_{v}.log'
